@@ -706,7 +706,7 @@ pub fn property(tier: Tier) -> Property {
                 move || {
                     let mut cfg = MixedCfg { max_ops, allow_extraction_subst: false, ..MixedCfg::for_lang(LangId::Core) };
                     cfg.hist.namings = Naming::diverse();
-                    cfg.hist.gen.ops = Some(vec!["v", "f2", "g3", "c0", "w", "w", "w", "p", "lam"]);
+                    cfg.hist.gen.ops = Some(vec!["v", "f2", "g3", "c0", "c0", "w", "w", "w", "p", "p", "lam"]);
                     let sig = LangId::Core.sig();
                     let gcfg = cfg.hist.gen.clone();
                     let probe = crate::one_of![
@@ -722,7 +722,7 @@ pub fn property(tier: Tier) -> Property {
             run: run_modify,
             panic_is_violation: false,
             render,
-            rule: "a reachable e-graph with an analysis whose modify hook asserts w(w(x)) = x by a union of its own (terms rich in w), then probe terms: every invocation returned by an insertion - in the history and for the probes - has exactly the slots of its canonical form and is equal to it, its slots are free names of the term, lookup afterwards returns an equal invocation with the same slots, a second insertion changes nothing and returns the same; non-trivial = some insertion's new class was merged away during that insertion",
+            rule: "a reachable e-graph with an analysis whose modify hook asserts w(w(x)) = x and (p x c0) = c0 by unions of its own (terms rich in w), then probe terms: every invocation returned by an insertion - in the history and for the probes - has exactly the slots of its canonical form and is equal to it, its slots are free names of the term, lookup afterwards returns an equal invocation with the same slots, a second insertion changes nothing and returns the same; non-trivial = some insertion's new class was merged away during that insertion",
             case_timeout_s: tier.pick(30, 120),
             exhaustive: false,
         }));
